@@ -53,7 +53,7 @@ D3 == [ name |-> "D3",
 \* D0: the empty store
 D0 == [name |-> "D0", names |-> << >>, row |-> << >>]
 
-Datasets == IF Mode = "page" THEN {D1, D2, D3} ELSE IF Mode \in {"datasets", "bool"} THEN {D1, D2, D3, D0} ELSE {D1, D2}
+Datasets == IF Mode = "mix" THEN {D1, D0} ELSE IF Mode = "page" THEN {D1, D2, D3} ELSE IF Mode \in {"datasets", "bool"} THEN {D1, D2, D3, D0} ELSE {D1, D2}
 
 \* ---- literal pools
 StrLits == {S(sA), S(sAB), S(sUA), S(sE), S(sB), S(s1), S(s10), S(s1p5), S(sBB), S(sQ), S(sBS), S(sAspB)}
@@ -148,9 +148,19 @@ PageQ == {[p |-> p, sort |-> so, skip |-> sk, limit |-> li] : p \in PagePreds, s
 \* minimal inputs of the named deviations (Query!Dev)
 ProbeQ == {Q([k |-> "atom", sym |-> <<"b">>, a |-> Cmp("eq", B(FALSE))]), Q([k |-> "atom", sym |-> <<"b">>, a |-> Cmp("ne", B(TRUE))])}
 
+\* C10: every operator x every symbol shape x every literal kind, well-typed or not, also set functions over non-set symbols and
+\* plain comparisons of set symbols: the engine must answer with an error or a query that evaluates without panicking
+AllAtoms == StrAtoms \cup NumAtoms \cup BoolAtoms \cup DateAtoms \cup AnyAtoms \cup BDAtoms
+            \cup {Btw(neg, lo, hi) : neg \in BOOLEAN, lo \in {S(sA)}, hi \in {S(sB)}}
+MixSyms == ScalarSyms \cup SetSyms \cup {<<"createdAt">>, <<"nosuch">>, <<"tags">>, <<"boss", "nosuch">>}
+MixQ == {Q([k |-> w, sym |-> sym, a |-> a]) : w \in {"atom", "anyOf", "allOf"}, sym \in MixSyms, a \in AllAtoms}
+        \cup {Q([k |-> "count", sym |-> sym, op |-> op, n |-> n]) : sym \in MixSyms, op \in {"eq", "lt"}, n \in {N(1), F2(3), S(sA), B(TRUE), D(1)}}
+        \cup {Q([k |-> "isEmpty", sym |-> sym]) : sym \in MixSyms} \cup {Q([k |-> "boolsym", sym |-> sym]) : sym \in MixSyms}
+        \cup {[p |-> TRUEF, sort |-> <<[sym |-> sym, asc |-> TRUE]>>, skip |-> NoVal, limit |-> NoVal] : sym \in MixSyms}
+
 SortSymQ == {[p |-> p, sort |-> so, skip |-> NoVal, limit |-> NoVal] : p \in PagePreds \cup {A1, A4}, so \in Sorts}
 
-QueriesOf(m) == CASE m = "datasets" -> {Q(TRUEF)} [] m = "probe" -> ProbeQ [] m = "sortsyms" -> SortSymQ [] m = "scalar" -> ScalarQ [] m = "set" -> SetQ [] m = "bool" -> BoolQ [] m = "subq" -> SubQ [] m = "page" -> PageQ
+QueriesOf(m) == CASE m = "datasets" -> {Q(TRUEF)} [] m = "probe" -> ProbeQ [] m = "sortsyms" -> SortSymQ [] m = "mix" -> MixQ [] m = "scalar" -> ScalarQ [] m = "set" -> SetQ [] m = "bool" -> BoolQ [] m = "subq" -> SubQ [] m = "page" -> PageQ
 
 \* one case per (dataset, query); sharded by a cheap hash so that several TLC processes split a slice
 VARIABLES ds, q, n
@@ -159,7 +169,8 @@ Init == /\ ds \in Datasets
         /\ n = 0
 Next == n = 0 /\ n' = 1 /\ UNCHANGED <<ds, q>>
 
-Emit == n = 1 => IF Mode = "datasets" THEN PrintT(ToJson([dataset |-> ds])) ELSE
+Emit == n = 1 => IF Mode = "datasets" THEN PrintT(ToJson([dataset |-> ds]))
+                 ELSE IF Mode = "mix" THEN PrintT(ToJson([ds |-> ds.name, q |-> q, ids |-> << >>, count |-> 0, syms |-> << >>])) ELSE
                  LET ans == Answer(ds, RowIds(ds), q) IN
                  PrintT(ToJson([ds |-> ds.name, q |-> q, ids |-> ans.ids, count |-> ans.count, syms |-> QSyms(q)]))
 =============================================================================
